@@ -304,6 +304,15 @@ def step (st : St) (cmd : String) (args : List String) : St × String :=
       let its := (itemsOf (w.trieOf tg).tree).map fun e => s!"{pathStr e.1}={toHex e.2}"
       (st, joinOr its ";")
     | none => bad
+  -- items() at raw level: nodes() over the database, filtered
+  | "itemsd", [tg] =>
+    match parseTarget tg with
+    | some tg =>
+      (st, match HexD.itemsOfD keccak w.base (w.trieOf tg).root 100000 with
+        | .ok l => joinOr (l.map fun e => s!"{pathStr e.1}={toHex e.2}") ";"
+        | .error (.missing h used) => s!"exn MissingTraversalNode {toHex h} {pathStr used}"
+        | .error _ => "exn Invalid")
+    | none => bad
   -- nodes() as the code computes it: the fog + frontier-cache loop
   | "nodesloop", [tg] =>
     match parseTarget tg with
